@@ -85,7 +85,7 @@ func c09Corpus(r *vf.Run) []parseInput {
 		`a=$100000000000000000000`, `a=$0`, `a=$`, `a=$1`, `a=$01`, ``, ` `, `a`, `a=`, `a="`, `a=""`, `a=""""`, `a="""`, `^`, `^^a="1"`, `((a="1"))`, `(a="1"`, `a="1")`,
 		`a="1" & b="2" & c="3"`, `a="1" | b="2" | c="3"`, `^a="1" & b="2"`, `^(a="1" & b="2")`, `(a="1" & b="2") | c="3"`, `a="1" & (b="2" | c="3")`, `a="1";b`, `a="1";b,c`, `a="1";`, `a="1";b,`, `a="1";,b`,
 		`a="1";b;c`, `a = "1" ; b , c`, "a\t=\n\"1\"\r\n", `a="1"&`, `&a="1"`, `a="1"&&b="2"`, `a=="1"`, `a="1"=`, `1a="1"`, `_a="1"`, `a_1="1"`, `é="1"`, `a="é"`, "a=\"\xff\"", "\xff", "a=\"1\"\x00",
-		`a="1" ; B9_z`, `a="1" b="2"`, `a="1" ^ b="2"`, `a="1" | ^ b="2"`, `a="1" | ^ ^ ( b="2" )`, `()`, `( )`, `a="1" & ()`, `a=b`, `a='1'`, `a="1" # c`,
+		`a="1" ; B9_z`, `a="1" b="2"`, `a="1" ^ b="2"`, `a="1" | ^ b="2"`, `a="1" | ^ ^ ( b="2" )`, `()`, `( )`, `a="1" & ()`, `a=b`, `a='1'`, `a="1" # c`, `aé = "x"`, `a = "x" ; b, cж9`, `a９ = "1"`, `é = "x"`, `a = "x" ; é`, `a="x";bß`, `a = $9999999999`, `a = $4294967298`, `a = $6442450945`, `a = $1410065407`,
 	} {
 		add("regression", s)
 	}
@@ -110,6 +110,15 @@ func c09Corpus(r *vf.Run) []parseInput {
 	for _, p := range []string{"0", "1", "2147483647", "2147483648", "4294967297", "100000000000000000000", strings.Repeat("9", 40), "00000000000000000000000000000000000000000000000001", "18446744073709551616", "9223372036854775807", "9223372036854775808"} {
 		add("placeholder-number", `a = $`+p)
 		add("placeholder-number", `a = $`+p+` & b = $1`)
+	}
+	for i := 0; i < r.Pick(400, 4000); i++ {
+		// random numbers of 1..22 digits: wrap-arounds of narrower integer types show up here
+		n := 1 + rng.Intn(22)
+		d := make([]byte, n)
+		for k := range d {
+			d[k] = byte('0' + rng.Intn(10))
+		}
+		add("placeholder-number", `a = $`+string(d))
 	}
 	for _, depth := range []int{100, 5000, r.Pick(50000, 200000)} {
 		add("nesting", strings.Repeat("^", depth)+`a="1"`)
